@@ -187,3 +187,69 @@ def impl_dec(mode, tname, cc, enc, data, source="counting"):
 
 def dec_op(mode, tname, cc, enc, data):
     return f"DEC {mode} {tname} {'-' if cc is None else cc} {1 if enc else 0} {data.hex() if data else '-'}"
+
+
+# --------------------------------------------------------------------------- typed integers / bit fields
+import re as _re
+
+_ANSI = _re.compile(r"\x1b\[[0-9;]*m")
+
+
+def prim_class(name):
+    return type_table()[name]
+
+
+def impl_int(pname, x):
+    """canonical line for INT <prim> <x> on the real code"""
+    T = prim_class(pname)
+    try:
+        v = T(x)
+        valid = 1 if v.is_valid() else 0
+        try:
+            b = v.to_bytes().hex()
+        except OverflowError:
+            b = "OverflowError"
+        fmt = format(v)
+        return [f"I valid={valid} bytes={b} fmt={fmt}"]
+    except Exception as e:  # noqa
+        return [f"I crash {type(e).__name__}"]
+
+
+def impl_bits(pname, x):
+    """canonical lines for BITS <prim> <x>: attributes(), accessors and the pretty printer's bit rows"""
+    from tpmstream.common.event import MarshalEvent
+    from tpmstream.common.path import Path, PathNode
+    from tpmstream.io.pretty.unmarshal import pretty_attrs
+    T = prim_class(pname)
+    try:
+        v = T(x)
+        attrs = list(v.attributes())
+        ev = MarshalEvent(Path(PathNode("")) / PathNode("w"), T, v)
+        rows = [_ANSI.sub("", r) for r in pretty_attrs(ev)]
+        out = []
+        for a, r in zip(attrs, rows):
+            if T.__name__ == "TPM_RC":
+                m = a._value
+                bits = x & m
+                mm = m
+                if mm == 0:
+                    f = "hang"
+                else:
+                    while mm & 1 == 0:
+                        bits >>= 1
+                        mm >>= 1
+                    f = str(bits)
+            else:
+                f = str(int(getattr(v, a._name)))
+            toks = r.split()
+            # row text: "<indent>.<name> <bits> [details…]"; the bits token is the first made of [01.] only
+            bits_tok = next((t for t in toks if _re.fullmatch(r"[01.]+", t) and len(t) == 8 * T._int_size), "?")
+            name_tok = next((t for t in toks if t.startswith(".") or "." + a._name in t), "")
+            if a._name not in name_tok:
+                bits_tok = "?name"
+            out.append(f"F {a._name} {int(a._value)} {f} {bits_tok}")
+        if len(rows) != len(attrs):
+            out.append(f"F ?rows {len(rows)} {len(attrs)} -")
+        return out
+    except Exception as e:  # noqa
+        return [f"F crash {type(e).__name__}"]
